@@ -1,8 +1,13 @@
 (* C06_Wire.v — wire glue for C06 (no proofs; exercised by the correspondence).
 
    input    = cfg :: t :: concat [op; arg]
-              cfg 0 = stack.New[int]()         (slice-backed; t ignored)
-              cfg 1 = stack.NewLinked[int](t)  (linked, mandatory first element t)
+              cfg = impl + 2*inst
+              impl 0 = stack.New[T]()          (slice-backed; t ignored)
+              impl 1 = stack.NewLinked[T](t)   (linked, mandatory first element t)
+              inst 0..2 = the element type T the harness instantiates (int, string,
+                          struct{K int; S string}; elements go through an injective
+                          codec int <-> T, harness/c05_instances.go); the model is the
+                          same for every inst (cfg 0|2|4 and 1|3|5 are one case each).
               op  1 Push arg | 2 Pop | 3 Peek | 4 Search arg | 5 Size
    observed = concat (result of every op) ++ end-of-case observables, where the
               end of a case is: Size (= n), min(n,4096) x Pop, Size, Pop, Size,
@@ -52,8 +57,8 @@ Definition c06_run (w : list Z) : list Z :=
       match sdec_ops (chunks 2 w') with
       | Some ops =>
           match cfg with
-          | 0 => senc_outs (sobserve ss_step ss_new ops)
-          | 1 => senc_outs (sobserve ls_step (ls_new t) ops)
+          | 0 | 2 | 4 => senc_outs (sobserve ss_step ss_new ops)
+          | 1 | 3 | 5 => senc_outs (sobserve ls_step (ls_new t) ops)
           | _ => wire_error
           end
       | None => wire_error
@@ -69,8 +74,8 @@ Definition c06_spec (w : list Z) : list Z :=
       match sdec_ops (chunks 2 w') with
       | Some ops =>
           match cfg with
-          | 0 => senc_outs (sobserve lifo_step [] ops)
-          | 1 => senc_outs (sobserve lifo_step [t] ops)
+          | 0 | 2 | 4 => senc_outs (sobserve lifo_step [] ops)
+          | 1 | 3 | 5 => senc_outs (sobserve lifo_step [t] ops)
           | _ => wire_error
           end
       | None => wire_error
